@@ -37,6 +37,11 @@ func (t *traceWriter) emit(v interface{}) {
 	if err != nil {
 		fatal("marshal: %v", err)
 	}
+	// nil slices marshal as null, which TLC's Json module cannot read: every null in these
+	// traces is an empty list
+	b = bytes.ReplaceAll(b, []byte(":null"), []byte(":[]"))
+	b = bytes.ReplaceAll(b, []byte("[null"), []byte("[[]"))
+	b = bytes.ReplaceAll(b, []byte(",null"), []byte(",[]"))
 	t.w.Write(asciiJSON(b))
 	t.w.WriteByte('\n')
 	t.n++
